@@ -189,8 +189,8 @@ def rule_bail_out_sites(ctx, mir, rid="R11.1"):
                 r.violate(key + "|flush", f"{f.key}: bail-out branch reaches the Err return without flush_for_bail_out (received bytes would be lost)", f.loc())
             if flush_b and f.can_reach_without(true_s, flush_b, run_b) and true_s not in run_b:
                 r.violate(key + "|order", f"{f.key}: flush_for_bail_out can run before run_bail_out_handlers (handler output must precede the raw flush)", f.loc())
-            # false edge: nothing
-            fr = f.reachable_blocks(false_s, avoid=errs_after)
+            # false edge (and anything between the question and the branch): nothing
+            fr = f.reachable_blocks(false_s, avoid=errs_after) | (f.reachable_blocks(f.blocks[s]["term"]["t"], avoid=[true_s] + list(errs_after)))
             bad = [bi for bi, t in f.calls(r"Dispatcher::(run_bail_out_handlers|flush_for_bail_out)$") if bi in fr]
             if bad:
                 r.violate(key + "|false-edge", f"{f.key}: bail-out handlers/flush reachable when should_bail_out_for is false", f.loc())
